@@ -41,6 +41,14 @@ def scenarios(ctx):
         out.append({"name": "old=%s new=%s %s limit=%d style=%d piece=%d" % (a, b, c.name(), lim, style, piece),
                     "a": files[(a, c.name())] if a is not None else None, "b": files[(b, c.name())], "limit": lim, "style": style,
                     "piece": piece, "depth": depth})
+    # files with the uncompressed-source flag (no whole-data digest; the scan has its own path for them), old file present at the
+    # first attempt only: chunks copied from it lie complete BEHIND the chunk the kill cut, and the restart - which no longer
+    # has the old file - must find them by scanning and must not ask the server for them
+    nU, zU = Cfg(0, b"", 1, 3, 1), Cfg(2, b"", 1, 1, 1)
+    for a, b, c, lim in ((("b", "abab", nU, -1), ("bc", "abcad", zU, 2)) if ctx.tier != "quick" else (("b", "abab", nU, -1),)):
+        fa, fb = universe.lib_files([(a, c), (b, c)], ctx.seed)
+        out.append({"name": "old=%s (first attempt only) new=%s %s limit=%d style=0 piece=0" % (a, b, c.name(), lim), "a": fa, "b": fb,
+                    "limit": lim, "style": 0, "piece": 0, "depth": 1, "resume_without_a": True})
     # scale-dependent shape: chunks larger than one and two of the scan's 32 KiB buffers whose content repeats with a period
     # dividing the buffer size - a restart that goes on hashing after a short read finds in its buffer exactly what the file
     # would have held.  Kill points: around every 4 KiB step of every write (and both ends), not every byte.
@@ -123,9 +131,11 @@ def explore(ctx, sc):
     seen = {b"": 0}
     frontier = [b""]
     st = {"states": 0, "trans": 0, "inner": 0, "viol": [], "outcomes": set()}
+    sc_full = sc
     for depth in range(0, sc["depth"] + 1):
         if not frontier:
             break
+        sc = dict(sc_full, a=None) if sc_full.get("resume_without_a") and depth >= 1 else sc_full
         # resume every new state to completion (traced)
         res = []
         for part in core.pmap(run_batch, [(sc, [(s, None) for s in ch]) for ch in core.chunks(frontier, 4 if sc.get("kills") else 40)]):
